@@ -270,6 +270,13 @@ func RunDialogue(d Dialogue, h *Hooks) (mon.Result, *Info) {
 		obs["credential_word_line_dialogues"] = 1
 		tags = append(tags, "family=credential-word-lines")
 	}
+	for _, st := range d.Steps {
+		if st.Kind == KSSHErr && st.Then != "" {
+			obs["failure_line_with_prompt_in_one_read"] = 1
+			tags = append(tags, "family=failure-line+"+st.Then+"-in-one-read")
+			break
+		}
+	}
 	if HasNotice(&d) {
 		tags = append(tags, "family=notice+prompt-in-one-read")
 		obs["notice_dialogues"] = 1
@@ -624,6 +631,9 @@ func planString(d *Dialogue) string {
 			fmt.Fprintf(&b, " banner(%d)", len(s.Lines))
 		case KUser, KPassword, KPassphrase, KSSHErr:
 			fmt.Fprintf(&b, " %s%q", s.Kind, s.Text)
+			if s.Then != "" {
+				fmt.Fprintf(&b, "+%s%q", s.Then, s.ThenText)
+			}
 		default:
 			b.WriteString(" " + s.Kind)
 		}
@@ -671,6 +681,7 @@ func init() {
 			"Custom patterns: one dialogue in ten is configured with WithUsernamePattern / WithPasswordPattern / WithPassphrasePattern and a device whose spellings " +
 			"(User ID:, Kennwort:, PIN:, Unlock private key ...) only those accept, mixed in the worker processes with default-pattern dialogues; plus pairs (36 quick / 360 thorough): two logins " +
 			"opened one after the other in one case under a prompt pattern unique to the pair, default-then-custom, custom-then-default and custom-then-custom, telnet and ssh, all drivers. " +
+			"Real transport: 28 (thorough 280) logins through the library's own telnet transport against a loopback TCP device whose line input takes CR LF as one enter, CR and LF each as an enter, or LF only (crossed with the return chars that are exactly one enter for it), with option negotiation and 0-1 refusals. " +
 			"Non-trivial = the dialogue has a credential prompt, an ssh failure line or a stall, and was delivered in >= 2 reads. Distinct = descriptor hash.",
 		Assumptions: []string{
 			"the device is causal (a step's bytes exist only after the previous credential line arrived), never echoes secrets, echoes the user name optionally",
@@ -725,6 +736,14 @@ func init() {
 			for i := 0; i < pairs; i++ {
 				cs = append(cs, mon.MkCase(fmt.Sprintf("c10/pair/%03d", i), GenPair(r, i, seed)))
 			}
+			nlo := 28
+			if tier == "thorough" {
+				nlo = 280
+			}
+			for i := 0; i < nlo; i++ {
+				lo := GenLo(r, i)
+				cs = append(cs, mon.MkCase(fmt.Sprintf("c10/telnet-transport/%03d", i), Dialogue{Lo: &lo}))
+			}
 			lossStep := 3
 			var lossDs []Dialogue
 			for _, k := range lossOrder {
@@ -760,6 +779,8 @@ func init() {
 				switch {
 				case d.Loss != "":
 					r = RunLoss(d)
+				case d.Lo != nil:
+					r, _ = RunTelnetLo(*d.Lo, nil)
 				case d.Then != nil:
 					r = RunPair(d)
 				default:
